@@ -230,8 +230,13 @@ def job_subsets(job):
         hv = D.save_vcf(stddata.run(D.assemble_args(bed=bed)), "asm_in.vcf")
         env.quiet()
     uncovered = "S0" in SAMPLES
+    # every sample has its own inbreeding coefficient (file lines in another order than the BAM arguments): a sample's column must depend on its own value only
+    inb = os.path.join(D.dir, "inbreeding.txt")
+    with open(inb, "w") as f:
+        for s_, v in (("S3", 0.15), ("S0", 0.1), ("S2", 0.3), ("S1", 0.05)):
+            f.write("%s\t%g\n" % (s_, v))
     # with a read-less sample also at a high reporting threshold: that sample then has no haplotype to report at all, which must not affect the others
-    for extra in ([[], ["--haplotype-posterior-threshold", "0.6"]] if (uncovered and prog == "assemble") else [[]]):
+    for extra in ([["--inbreeding", inb], ["--inbreeding", inb, "--haplotype-posterior-threshold", "0.6"]] if (uncovered and prog == "assemble") else [["--inbreeding", inb]]):
         alone = {}
         for s in SAMPLES:
             hdr, samples, recs = run_prog(D, prog, [s], seed, bed, hv, extra=extra)
